@@ -12,7 +12,7 @@ def _refs_of_recipe(r) -> set[int]:
     slotty = {
         "line_pq": [0, 1], "linecoll_pq": [0, 1], "plane_pqr": [0, 1, 2], "circle": [0], "ellipse": [0], "sphere": [0],
         "cone": [0, 1], "cylinder": [0, 1], "rotation": [1], "reflection": [0], "segment": [0, 1],
-        "segmentcoll": [0, 1], "triangle": [0, 1, 2], "regpoly": [0, 3], "cuboid": [0, 1, 2, 3], "alias": [0],
+        "segmentcoll": [0, 1], "triangle": [0, 1, 2], "regpoly": [0, 3], "cuboid": [0, 1, 2, 3], "alias": [0], "twin": [0],
     }
     out = set()
     for i in slotty.get(k, []):
